@@ -1,4 +1,172 @@
 import Model
+import Proofs.C02
+
+/-
+  C02 — an object is only attributed to the host that actually served it.
+  `World.fetch` is arbitrary (any servers, any redirects: `src` is the final URL, C03).
+  Property theorems only; helper lemmas live in Proofs/C02.lean.
+-/
+
 namespace C02
-theorem placeholder : True := trivial
+open Pub Obj
+
+/-- `v` occurs inside `d` (as `d` itself, an array element, or a member value, at any depth). -/
+inductive Sub : JVal → JVal → Prop where
+  | refl (v : JVal) : Sub v v
+  | arr (v x : JVal) (xs : List JVal) : x ∈ xs → Sub v x → Sub v (.arr xs)
+  | obj (v x : JVal) (k : Str) (kvs : List (Str × JVal)) : (k, x) ∈ kvs → Sub v x → Sub v (.obj kvs)
+
+/-- The JSON object `o` was served by `host`: it is a document some URL's final response came
+    with from that host, or is embedded in such a document. -/
+def Served (w : World) (host : Str) (o : O) : Prop :=
+  ∃ url doc src, w.fetch url = some (doc, src) ∧ src.host = host ∧ Sub (.obj o) (.obj doc)
+
+/-- The precondition under which `FetchUnknown(input, source)` is called everywhere: an embedded
+    object handed over together with a `source` was served by that source's host. -/
+def Pre (w : World) (input : JVal) (source : Option U) : Prop :=
+  ∀ s kvs, source = some s → input = .obj kvs → Served w s.host kvs
+
+/-! Bridges to the identical definitions the helper lemmas in Proofs/C02.lean are stated over. -/
+
+theorem sub_iff {v d : JVal} : Sub v d ↔ C02aux.Sub v d := by
+  constructor
+  · intro h
+    induction h with
+    | refl => exact .refl _
+    | arr x xs hm _ ih => exact .arr _ x xs hm ih
+    | obj x k kvs hm _ ih => exact .obj _ x k kvs hm ih
+  · intro h
+    induction h with
+    | refl => exact .refl _
+    | arr x xs hm _ ih => exact .arr _ x xs hm ih
+    | obj x k kvs hm _ ih => exact .obj _ x k kvs hm ih
+
+theorem served_iff {w : World} {host : Str} {o : O} : Served w host o ↔ C02aux.Served w host o := by
+  simp only [Served, C02aux.Served, sub_iff]
+
+theorem pre_iff {w : World} {input : JVal} {source : Option U} :
+    Pre w input source ↔ C02aux.Pre w input source := by
+  simp only [Pre, C02aux.Pre, served_iff]
+
+/-- (1) Whenever `FetchUnknown` accepts an object that carries an id, that object was served by
+    the host named in the id. -/
+theorem fetchUnknown_provenance (w : World) (input : JVal) (source : Option U) (o : O) (id : U)
+    (hpre : Pre w input source) (h : fetchUnknown w input source = .ok (o, some id)) :
+    Served w id.host o :=
+  served_iff.2 (C02aux.fetchUnknown_provenance (pre_iff.1 hpre) h)
+
+/-- (3a) An embedded object whose id names another host than the document it came in is never
+    used as is: what is returned was fetched from the URL in its id (or the call fails). -/
+theorem foreign_embedded_refetched (w : World) (kvs : O) (s id : U) (o : O) (oid : Option U)
+    (hid : getId w kvs = .ok (some id)) (hne : s.host ≠ id.host)
+    (h : fetchUnknown w (.obj kvs) (some s) = .ok (o, oid)) :
+    ∃ src', w.fetch id.str = some (o, src') :=
+  C02aux.foreign_embedded_refetched hid hne h
+
+/- (3b) ORIGINAL STATEMENT — FALSE AS WRITTEN, kept here for reference:
+
+  theorem forged_rejected (w : World) (input : JVal) (source : Option U) (o : O) (id : U)
+      (h : fetchUnknown w input source = .ok (o, some id)) :
+      (∃ src, w.fetch id.str = some (o, src) ∧ src.host = id.host) ∨
+      (∃ s, source = some s ∧ s.host = id.host ∧ input = .obj o) ∨
+      (∃ ref src, input = .str ref ∧ src.host = id.host ∧ ∃ u, w.parse ref = some u ∧ w.fetch u.str = some (o, src))
+
+  The first disjunct claims the accepted object is what the URL in *its own* id serves.  The
+  re-fetch, however, goes to the URL in the id of the *first* object (`id0`), and the document
+  that comes back is only checked for `src.host = id.host`, never for `id.str = id0.str`.
+  Counterexample (`C02aux.cexWorld`, `C02aux.cex_accepts`): `parse s = ⟨s, "h"⟩`, `fetch "a" =
+  ({"id":"b"}, src = ⟨"a","h"⟩)`, `fetch _ = none` otherwise; then
+  `fetchUnknown w {"id":"a"} none = ok ({"id":"b"}, some ⟨"b","h"⟩)`, but `fetch "b" = none`,
+  `source = none` and the input is not a string: no disjunct holds.  The refutation is proved: -/
+theorem forged_rejected_original_false :
+    ¬ ∀ (w : World) (input : JVal) (source : Option U) (o : O) (id : U),
+      fetchUnknown w input source = .ok (o, some id) →
+      (∃ src, w.fetch id.str = some (o, src) ∧ src.host = id.host) ∨
+      (∃ s, source = some s ∧ s.host = id.host ∧ input = .obj o) ∨
+      (∃ ref src, input = .str ref ∧ src.host = id.host ∧ ∃ u, w.parse ref = some u ∧ w.fetch u.str = some (o, src)) :=
+  C02aux.forged_rejected_original_false
+
+/-- (3b) If the re-fetched document claims an id on yet another host, it is rejected as forged.
+    CORRECTED STATEMENT (only the first disjunct differs from the original above): an accepted
+    object with an id was either (a) re-fetched from the URL in the id `id0` of the first object
+    `o0` — the embedded input, or the document the reference led to — and came from the host its
+    own id names; or (b) kept embedded, the source's host being the id's; or (c) fetched by
+    reference from the id's host and kept. -/
+theorem forged_rejected (w : World) (input : JVal) (source : Option U) (o : O) (id : U)
+    (h : fetchUnknown w input source = .ok (o, some id)) :
+    (∃ o0 id0 src, (input = .obj o0 ∨ ∃ ref u src0, input = .str ref ∧ w.parse ref = some u ∧
+          w.fetch u.str = some (o0, src0)) ∧
+        getId w o0 = .ok (some id0) ∧ w.fetch id0.str = some (o, src) ∧
+        src.host = id.host ∧ getId w o = .ok (some id)) ∨
+    (∃ s, source = some s ∧ s.host = id.host ∧ input = .obj o) ∨
+    (∃ ref src, input = .str ref ∧ src.host = id.host ∧ ∃ u, w.parse ref = some u ∧ w.fetch u.str = some (o, src)) :=
+  C02aux.fetchUnknown_inv h
+
+/-- Sub-values of a served object are served by the same host (what the constructors rely on when
+    they pass a member of `o` together with `o`'s id as source). -/
+theorem served_sub (w : World) (host : Str) (o o' : O) (h : Served w host o) (hs : Sub (.obj o') (.obj o)) :
+    Served w host o' :=
+  served_iff.2 (C02aux.served_sub w host o o' (served_iff.1 h) (sub_iff.1 hs))
+
+/-- Provenance of a built actor / post / activity: every part that carries an id was built from
+    JSON served by that id's host. -/
+def ActorOk (w : World) (a : ActorM) : Prop := ∀ id, a.id = some id → Served w id.host a.obj
+
+def AorFOk (w : World) : AorF → Prop
+  | .actor a => ActorOk w a
+  | .failure => True
+
+def PostOk (w : World) (p : PostM) : Prop :=
+  (∀ id, p.id = some id → Served w id.host p.obj) ∧
+  (∀ x ∈ p.creators, AorFOk w x) ∧ (∀ x ∈ p.recipients, AorFOk w x) ∧
+  (∀ po pid, p.parent = .ok (po, some pid) → Served w pid.host po)
+
+def TargetOk (w : World) : Target → Prop
+  | .post p => PostOk w p
+  | .actor a => ActorOk w a
+  | .failure => True
+
+def ItemOk (w : World) : Item → Prop
+  | .failure => True
+  | .actor a => ActorOk w a
+  | .post p => PostOk w p
+  | .activity a => (∀ id, a.id = some id → Served w id.host a.obj) ∧
+      (∀ ac, a.actor = .ok ac → ActorOk w ac) ∧ TargetOk w a.target
+  | .collection _ => True
+
+theorem actorOk_iff {w : World} {a : ActorM} : ActorOk w a ↔ C02aux.ActorOk w a := by
+  simp only [ActorOk, C02aux.ActorOk, served_iff]
+
+theorem aorFOk_iff {w : World} {x : AorF} : AorFOk w x ↔ C02aux.AorFOk w x := by
+  cases x <;> simp only [AorFOk, C02aux.AorFOk, actorOk_iff]
+
+theorem postOk_iff {w : World} {p : PostM} : PostOk w p ↔ C02aux.PostOk w p := by
+  simp only [PostOk, C02aux.PostOk, served_iff, aorFOk_iff]
+
+theorem targetOk_iff {w : World} {t : Target} : TargetOk w t ↔ C02aux.TargetOk w t := by
+  cases t <;> simp only [TargetOk, C02aux.TargetOk, actorOk_iff, postOk_iff]
+
+theorem itemOk_iff {w : World} {x : Item} : ItemOk w x ↔ C02aux.ItemOk w x := by
+  cases x <;> simp only [ItemOk, C02aux.ItemOk, actorOk_iff, postOk_iff, targetOk_iff, served_iff]
+
+/-- (2) Build invariant: `pub.New` (and with it every constructor it calls, each passing only the
+    enclosing object's own validated id as `source`) yields a tree in which every item has
+    provenance at its id's host. -/
+theorem new_provenance (w : World) (input : JVal) (source : Option U) (hpre : Pre w input source) :
+    ItemOk w (new w input source) :=
+  itemOk_iff.2 (C02aux.new_provenance w input source (pre_iff.1 hpre))
+
+/-- The same for the entries of listings, given the element was served by the page's host. -/
+theorem outboxItem_provenance (w : World) (owner : Option U) (e : E) (hpre : Pre w e.1 e.2) :
+    ItemOk w (outboxItem w owner e) :=
+  itemOk_iff.2 (C02aux.outboxItem_provenance w owner e (pre_iff.1 hpre))
+
+theorem replyItem_provenance (w : World) (parent : Option U) (e : E) (hpre : Pre w e.1 e.2) :
+    ItemOk w (replyItem w parent e) :=
+  itemOk_iff.2 (C02aux.replyItem_provenance w parent e (pre_iff.1 hpre))
+
+/-- Non-vacuity: `Pre` holds trivially for what the user types (a URL string, no source). -/
+example (w : World) (s : Str) : Pre w (.str s) none := by
+  intro _ _ h; cases h
+
 end C02
